@@ -15,10 +15,14 @@
       connection_reset()/connection_close()   (h1.c, connections.c)   -> `h1Msg`, `h1Run`
     h2_recv_headers() + h2_init_stream() + h2_retire_stream()         -> `h2Stream`, `h2Run`
 
-  The functions take the *whole* request state and read and write it field by field the way
-  the C does (response headers and body are appended to what is already there, "set unless
-  already set" tests look at the existing bits, ...), so that a field that is not reset between
-  requests shows up as a different response.
+  The functions read and write the request state field by field the way the C does (response
+  headers and body are appended to what is already there, "set unless already set" tests look at
+  the existing bits, ...), so that a field that is not reset between requests shows up as a
+  different response.  The type of a function tells which group of request_st fields it touches:
+  `ReqLive` (restored by request_reset()), `ReqCore` (+ the fields kept until
+  request_reset_ex()), `ReqSt` (+ the fields no reset function restores).  Of the latter the
+  response path only maintains the allocation state of physical.path (which
+  http_response_reset() looks at) and conditional_is_valid; the condition cache is C14's model.
 -/
 import LtVerif.Model.Reset
 import LtVerif.Model.H1Parse
@@ -63,7 +67,7 @@ def mOPTIONS : Int := methodId (ofString "OPTIONS")
 /-! ### request head -> request state -/
 
 /-- the parser's working record as the C finds it in the request object -/
-def toPReq (s : ReqCore) : PReq :=
+def toPReq (s : ReqLive) : PReq :=
   { version := if s.version ≤ 0 then 0 else s.version.toNat,
     keepAlive := s.keepAlive ≠ 0,
     method := methodName s.method,
@@ -142,9 +146,9 @@ def parsePostV (o : Opts) (schemePort : Nat) (ext : Bool) (r : PReq) : HeadRes :
       else .ok r t
 
 /-- write an accepted request into the request object (the fields http_request_parse_hoff() /
-    http_request_parse() / http_request_headers_fin() set on success) -/
-def storeParsed (s : ReqSt) (ver : Int) (r : PReq) (t : Target) (raw : Bytes) (special : Bool)
-    (schemePort : Nat) (hlen : Nat) : ReqSt :=
+    http_request_parse() set on success) -/
+def storeParsed (s : ReqCore) (ver : Int) (r : PReq) (t : Target) (raw : Bytes) (special : Bool)
+    (schemePort : Nat) (hlen : Nat) : ReqCore :=
   let hs : HList := r.headers.map fun (k, v) => (hid k, k, v)
   let tags := (hs.filter fun e => !e.2.2.isEmpty).foldl (fun acc e => bset acc e.1) []
   { s with
@@ -162,28 +166,27 @@ def storeParsed (s : ReqSt) (ver : Int) (r : PReq) (t : Target) (raw : Bytes) (s
     uriAuthority := some (r.host.getD []),
     uriPath := some t.path,
     uriQuery := if !special && t.target.contains qmark then some t.query else none,
-    conValid := 4294967295,
     rqstHeaderLen := hlen }
 
 /-- http_request_headers_fin() after a parse error -/
-def storeError (s : ReqCore) (status : Nat) (ver meth : Int) : ReqCore :=
+def storeError (s : ReqLive) (status : Nat) (ver meth : Int) : ReqLive :=
   { s with httpStatus := status, keepAlive := 0, reqbodyLength := 0,
            version := if ver = -1 then s.version else ver,
            method := if meth = -1 then s.method else meth }
 
-inductive IntoRes
+inductive IntoRes (σ : Type)
   | incomplete
   | blank
   | skipV6
-  | done (s : ReqSt)             -- request head consumed; s.httpStatus ≠ 0 = rejected
+  | done (s : σ)             -- request head consumed; s.httpStatus ≠ 0 = rejected
 deriving Repr
 
-/-- h1_recv_headers() limit checks + http_request_headers_process() on the state `s` -/
-def parseIntoH1 (s : ReqSt) (block : Bytes) : IntoRes :=
+/-- h1_recv_headers() limit checks + http_request_headers_process() -/
+def parseIntoH1C (s : ReqCore) (block : Bytes) : IntoRes ReqCore :=
   let o : Opts := ⟨s.conf.parseopts⟩
   match recvHead s.conf.maxRequestFieldSize block with
   | .incomplete => .incomplete
-  | .tooLarge => .done { s with httpStatus := 431, keepAlive := 0 }
+  | .tooLarge => .done (s.onLive fun l => { l with httpStatus := 431, keepAlive := 0 })
   | .blank _ => .blank
   | .head lines len =>
     match lines with
@@ -191,17 +194,29 @@ def parseIntoH1 (s : ReqSt) (block : Bytes) : IntoRes :=
     | rl :: fields =>
       let (pv, pm) := reqlinePrefix o rl
       match parseReqline o rl (block.take len) with
-      | .error e => .done (s.onCore (storeError · e pv pm))
+      | .error e => .done (s.onLive (storeError · e pv pm))
       | .ok r1 =>
-        match parseHeaders o (mergeReqline (toPReq s.toReqCore) r1) fields with
-        | .error e => .done (s.onCore (storeError · e pv pm))
+        match parseHeaders o (mergeReqline (toPReq s.toReqLive) r1) fields with
+        | .error e => .done (s.onLive (storeError · e pv pm))
         | .ok r2 =>
           let special := (r2.method = ofString "CONNECT" && !s.h2ConnectExt)
                           || (r2.method = ofString "OPTIONS" && r2.target = [42])
           match parsePostV o 80 s.h2ConnectExt r2 with
-          | .err e => .done (s.onCore (storeError · e pv pm))
+          | .err e => .done (s.onLive (storeError · e pv pm))
           | .skipV6 => .skipV6
           | .ok r t => .done (storeParsed s (r.version : Int) r t r2.target special 80 len)
+
+/-- all config conditions are valid after a successfully parsed head (http_request_headers_fin()) -/
+def parsedStale (d : ReqStale) (c : ReqCore) : ReqStale :=
+  if c.httpStatus = 0 then { d with conValid := 4294967295 } else d
+
+def liftInto (s : ReqSt) : IntoRes ReqCore → IntoRes ReqSt
+  | .incomplete => .incomplete
+  | .blank => .blank
+  | .skipV6 => .skipV6
+  | .done c => .done { toReqCore := c, toReqStale := parsedStale s.toReqStale c }
+
+def parseIntoH1 (s : ReqSt) (block : Bytes) : IntoRes ReqSt := liftInto s (parseIntoH1C s.toReqCore block)
 
 /-! ### HTTP/2 header fields (after HPACK decoding) -/
 
@@ -310,22 +325,25 @@ def h2Fields (o : Opts) (maxField : Nat) (r : PReq) (c : H2Ctx) (fs : List (Byte
   | .error e => .error e
   | .ok (r, c) => if c.pseudo then validatePseudo o r c else .ok (r, c)
 
-/-- h2_recv_headers() (after h2_init_stream()) + http_request_headers_process_h2() on state `s`;
+/-- h2_recv_headers() (after h2_init_stream()) + http_request_headers_process_h2();
     `endStream` = END_STREAM flag on the HEADERS frame -/
-def parseIntoH2 (s : ReqSt) (fs : List (Bytes × Bytes)) (endStream : Bool) : IntoRes :=
+def parseIntoH2C (s : ReqCore) (fs : List (Bytes × Bytes)) (endStream : Bool) : IntoRes ReqCore :=
   let o : Opts := ⟨s.conf.parseopts⟩
   let s := { s with reqbodyLength := if endStream then 0 else -1 }
-  let pre := { toPReq s.toReqCore with version := 2 }
+  let pre := { toPReq s.toReqLive with version := 2 }
   let hlen := (fs.map fun kv => kv.1.length + kv.2.length + 4).sum + 2
   match h2Fields o s.conf.maxRequestFieldSize pre { ext := s.h2ConnectExt } fs with
-  | .error e => .done ({ s with version := 2 }.onCore (storeError · e 2 (-1)))
+  | .error e => .done (s.onLive fun l => storeError { l with version := 2 } e 2 (-1))
   | .ok (r, c) =>
     let special := (r.method = ofString "CONNECT" && !c.ext) || (r.method = ofString "OPTIONS" && r.target = [42])
     match parsePostV o 80 c.ext r with
-    | .err e => .done ({ s with version := 2, h2ConnectExt := c.ext }.onCore (storeError · e 2 (methodId r.method)))
+    | .err e => .done (s.onLive fun l => storeError { l with version := 2, h2ConnectExt := c.ext } e 2 (methodId r.method))
     | .skipV6 => .skipV6
     | .ok r' t =>
       .done { storeParsed s 2 r' t r.target special 80 (s.rqstHeaderLen + hlen) with h2ConnectExt := c.ext }
+
+def parseIntoH2 (s : ReqSt) (fs : List (Bytes × Bytes)) (endStream : Bool) : IntoRes ReqSt :=
+  liftInto s (parseIntoH2C s.toReqCore fs endStream)
 
 /-! ### the served site -/
 
@@ -380,14 +398,11 @@ def applyScope (c : Conf) (sc : Scope) : Conf :=
            docRoot := sc.docRoot.getD c.docRoot }
 
 /-- config_cond_cache_reset() + config_patch_config(): every block is evaluated against the
-    current request, the results are cached (context 0 is the global scope) -/
-def httpResponseConfig (site : Site) (s : ReqSt) : ReqSt :=
-  let results := site.scopes.map fun sc => evalCond s.toReqCore sc.cond
-  let cache : List CondEnt :=
-    ({} : CondEnt) :: results.map fun b => { result := if b then 3 else 2, localResult := if b then 3 else 2 }
-  let conf := (site.scopes.zip results).foldl (fun c p => if p.2 then applyScope c p.1 else c) s.conf
-  { s with condCache := (cache ++ List.replicate (s.condCache.length - cache.length) ({} : CondEnt)).take s.condCache.length,
-           conf := conf, serverName := .authority }
+    current request (never against cached results of an earlier one) and the matching blocks
+    are merged, in file order, over r->conf -/
+def httpResponseConfig (site : Site) (s : ReqCore) : ReqCore :=
+  let conf := site.scopes.foldl (fun c sc => if evalCond s sc.cond then applyScope c sc else c) s.conf
+  { s with conf := conf, serverName := .authority }
 
 /-! ### response generation -/
 
@@ -413,11 +428,11 @@ def isGetHeadQuery (m : Int) : Bool := m = mGET || m = mHEAD || m = mQUERY
 def isGetHeadQueryPost (m : Int) : Bool := isGetHeadQuery m || m = mPOST
 
 /-- http_status_set_error_close() -/
-def errorClose (s : ReqCore) (st : Int) : ReqCore :=
+def errorClose (s : ReqLive) (st : Int) : ReqLive :=
   { s with keepAlive := 0, respBodyFinished := true, handlerModule := false, httpStatus := st }
 
 /-- http_response_prepare_options_star() -/
-def optionsStar (s : ReqCore) : ReqCore :=
+def optionsStar (s : ReqLive) : ReqLive :=
   respAppend { s with httpStatus := 200, respBodyFinished := true } idAllow (ofString "Allow")
     (ofString "OPTIONS, GET, HEAD, POST")
 
@@ -429,19 +444,19 @@ def joinPath (a b : Bytes) : Bytes :=
 
 /-- mod_setenv: handle_uri_clean (plugin slot 1): the per-request context is created once and
     keeps the configuration that matched when it was created -/
-def setenvUriClean (s : ReqCore) : ReqCore :=
+def setenvUriClean (s : ReqLive) : ReqLive :=
   match s.pluginCtx.getD 1 none with
   | some _ => s                                   -- hctx->handled: nothing to do
   | none => { s with pluginCtx := s.pluginCtx.set 1 (some s.conf.extra) }
 
 /-- mod_setenv: handle_response_start -/
-def setenvResponseStart (s : ReqCore) : ReqCore :=
+def setenvResponseStart (s : ReqLive) : ReqLive :=
   match s.pluginCtx.getD 1 none with
   | none => s
   | some hs => hs.foldl (fun s kv => respInsert s (hid (kv.1.map toLower)) kv.1 kv.2) s
 
 /-- http_response_send_file() + http_response_handle_cachable() for a regular file -/
-def sendFile (s : ReqCore) (ctype content etag : Bytes) : ReqCore :=
+def sendFile (s : ReqLive) (ctype content etag : Bytes) : ReqLive :=
   let implicitOctet := ctype.isEmpty
   let s := if !btst s.respHtags idContentType then
              respSet s idContentType (ofString "Content-Type")
@@ -462,21 +477,8 @@ def sendFile (s : ReqCore) (ctype content etag : Bytes) : ReqCore :=
     let s := { s with writeQueue := s.writeQueue.append content, httpStatus := 200, respBodyFinished := true }
     respSet s idContentLength (ofString "Content-Length") (natToDec content.length)
 
-/-- mod_staticfile for a request that reached the end of the subrequest_start hooks, and the
-    "no handler" fallback of http_response_prepare() -/
-def staticOrFallback (site : Site) (s : ReqCore) : ReqCore :=
-  -- mod_access (second call), mod_staticfile
-  if site.denySuffix.any (fun d => endsWith s.uriPath.bytes d) then
-    { s with httpStatus := 403, handlerModule := false }
-  else
-  let excluded := site.excludeExt.any (fun x => endsWith s.physPath.bytes x)
-  let s :=
-    if !s.handlerModule && isGetHeadQueryPost s.method && !excluded
-       && s.uriPath.bytes.getLast? ≠ some slash then
-      match site.lookup s.physPath.bytes with
-      | some (.file ct content etag) => sendFile s ct content etag
-      | _ => s
-    else s
+/-- the "no handler" fallback at the end of http_response_prepare() -/
+def noHandler (s : ReqLive) : ReqLive :=
   if s.handlerModule then s else
   if s.httpStatus = 0 then
     if s.method = mOPTIONS then optionsStar (bodyClear hdrIds s false)
@@ -486,39 +488,50 @@ def staticOrFallback (site : Site) (s : ReqCore) : ReqCore :=
   else s
 
 /-- the subrequest_start hooks (mod_indexfile, mod_access, mod_staticfile) and the fallback -/
-def subrequestStart (site : Site) (s : ReqSt) : ReqSt :=
+def subrequestStart (site : Site) (s : ReqCore) : ReqCore :=
   -- mod_indexfile
   let s :=
     if !s.handlerModule && s.uriPath.bytes.getLast? = some slash then
       match site.indexNames.find? (fun n => (site.lookup (s.physPath.bytes ++ n)).isSome) with
-      | some n => { s with physPath := some (s.physPath.bytes ++ n), physPathPtr := true,
-                           uriPath := some (s.uriPath.bytes ++ n) }
+      | some n => { s with physPath := some (s.physPath.bytes ++ n), uriPath := some (s.uriPath.bytes ++ n) }
       | none => s
     else s
-  s.onCore (staticOrFallback site)
+  -- mod_access (second call)
+  if site.denySuffix.any (fun d => endsWith s.uriPath.bytes d) then
+    s.onLive fun l => { l with httpStatus := 403, handlerModule := false }
+  else
+  -- mod_staticfile
+  let excluded := site.excludeExt.any (fun x => endsWith s.physPath.bytes x)
+  let s :=
+    if !s.handlerModule && isGetHeadQueryPost s.method && !excluded
+       && s.uriPath.bytes.getLast? ≠ some slash then
+      match site.lookup s.physPath.bytes with
+      | some (.file ct content etag) => s.onLive (sendFile · ct content etag)
+      | _ => s
+    else s
+  s.onLive noHandler
 
 /-- http_response_prepare() -/
-def responsePrepare (site : Site) (s : ReqSt) : ReqSt :=
+def responsePrepare (site : Site) (s : ReqCore) : ReqCore :=
   if s.httpStatus > 200 then
-    if !s.respBodyFinished then s.onCore (bodyClear hdrIds · false) else s
+    if !s.respBodyFinished then s.onLive (bodyClear hdrIds · false) else s
   else
   -- request set-up is done once per request: only while physical.path is still unset
-  let s1? : Except ReqSt ReqSt :=
+  let s1? : Except ReqCore ReqCore :=
     if s.physPath.isNone then
       let s := httpResponseConfig site s
       -- uri_clean hooks in module order: mod_access (a rejection ends the hook chain), mod_setenv
       if site.denySuffix.any (fun d => endsWith s.uriPath.bytes d) then
-        .error { s with httpStatus := 403, handlerModule := false }
+        .error (s.onLive fun l => { l with httpStatus := 403, handlerModule := false })
       else
-      let s := s.onCore setenvUriClean
-      if s.method = mOPTIONS && s.uriPath.bytes = [42] then .error (s.onCore optionsStar)
+      let s := s.onLive setenvUriClean
+      if s.method = mOPTIONS && s.uriPath.bytes = [42] then .error (s.onLive optionsStar)
       else if s.method = mCONNECT && (s.handlerModule || !s.h2ConnectExt) then
-        .error (if s.handlerModule then s else s.onCore (errorClose · 405))
+        .error (if s.handlerModule then s else s.onLive (errorClose · 405))
       else
-        let root := s.conf.docRoot
-        let rel := s.uriPath.bytes
-        .ok { s with physDocRoot := some root, physRelPath := some rel, physBasedir := some root,
-                     physPath := some (joinPath root rel), physPathPtr := true }
+        -- (physical.doc_root and physical.basedir are set here too; nothing in the model reads them)
+        .ok { s with physRelPath := some s.uriPath.bytes,
+                     physPath := some (joinPath s.conf.docRoot s.uriPath.bytes) }
     else .ok s
   match s1? with
   | .error s => s
@@ -527,36 +540,43 @@ def responsePrepare (site : Site) (s : ReqSt) : ReqSt :=
     -- http_response_physical_path_check()
     match site.lookup s.physPath.bytes with
     | none =>
-      if s.method = mOPTIONS && btst s.respHtags idAllow then { s with httpStatus := 200 }
-      else { s with httpStatus := 404 }
+      if s.method = mOPTIONS && btst s.respHtags idAllow then s.onLive fun l => { l with httpStatus := 200 }
+      else s.onLive fun l => { l with httpStatus := 404 }
     | some node =>
       if node = .dir && s.uriPath.bytes.getLast? ≠ some slash then
         -- http_response_redirect_to_directory()
         let loc := s.uriPath.bytes ++ [slash] ++
                    (match s.uriQuery with | some q => qmark :: q | none => [])
-        let s := s.onCore (respSet · idLocation (ofString "Location") loc)
-        { s with httpStatus := 301, respBodyFinished := true }
+        s.onLive fun l =>
+          { respSet l idLocation (ofString "Location") loc with httpStatus := 301, respBodyFinished := true }
       else subrequestStart site s
 
-/-- http_response_errdoc_init() + the default page of http_response_static_errdoc() -/
-def staticErrdoc (s : ReqSt) : ReqSt :=
-  let skip := if !s.handlerModule then s.errorHandlerSavedStatus ≥ 65535
-              else (s.errorHandlerSavedStatus ≠ 0)        -- (error_intercept is off)
-  if skip then s else
-  let www := if s.httpStatus = 401 then respGet s.toReqCore idWwwAuthenticate (ofString "WWW-Authenticate") else none
-  let s := { s with physPath := none, physPathPtr := s.physPathPtr && !s.physPathBig, physPathBig := false,
-                    respHtags := [], respHeaders := [] }
-  s.onCore fun s =>
-    let s := bodyClear hdrIds s false
-    let s := match www with
-             | some v => respSet s idWwwAuthenticate (ofString "WWW-Authenticate") v
-             | none => s
-    let s := { s with respBodyFinished := true, writeQueue := s.writeQueue.append (errorPage s.httpStatus) }
-    respSet s idContentType (ofString "Content-Type") (ofString "text/html")
+/-- does http_response_static_errdoc() replace the response (status is 4xx/5xx)? -/
+def errdocApplies (s : ReqLive) : Bool :=
+  s.httpStatus ≥ 400 && s.httpStatus < 600 &&
+  !(if !s.handlerModule then s.errorHandlerSavedStatus ≥ 65535
+    else s.errorHandlerSavedStatus ≠ 0)                     -- (error_intercept is off)
 
-/-- http_response_write_prepare() after the error document: response_start hooks, framing
-    headers, HEAD (Range handling is C15's model; not repeated here) -/
-def writePrepareTail (s : ReqCore) : ReqCore :=
+/-- http_response_errdoc_init() + the default page of http_response_static_errdoc()
+    (physical.path is reset as well: see `respond`) -/
+def staticErrdoc (s : ReqLive) : ReqLive :=
+  let www := if s.httpStatus = 401 then respGet s idWwwAuthenticate (ofString "WWW-Authenticate") else none
+  let s := { s with respHtags := [], respHeaders := [] }
+  let s := bodyClear hdrIds s false
+  let s := match www with
+           | some v => respSet s idWwwAuthenticate (ofString "WWW-Authenticate") v
+           | none => s
+  let s := { s with respBodyFinished := true, writeQueue := s.writeQueue.append (errorPage s.httpStatus) }
+  respSet s idContentType (ofString "Content-Type") (ofString "text/html")
+
+/-- http_response_write_prepare() (Range handling is C15's model; not repeated here) -/
+def writePrepare (s : ReqLive) : ReqLive :=
+  let s :=
+    if s.httpStatus = 204 || s.httpStatus = 205 || s.httpStatus = 304 then
+      let s := if s.httpStatus ≠ 304 then respUnset s idContentLength (ofString "Content-Length") else s
+      { bodyClear hdrIds s true with respBodyFinished := true }
+    else if errdocApplies s then staticErrdoc s
+    else s
   let s := setenvResponseStart s
   let s :=
     if s.respBodyFinished then
@@ -577,21 +597,10 @@ def writePrepareTail (s : ReqCore) : ReqCore :=
     else s
   if s.method = mHEAD then { bodyClear hdrIds s true with respBodyFinished := true } else s
 
-/-- http_response_write_prepare() -/
-def writePrepare (s : ReqSt) : ReqSt :=
-  let s :=
-    if s.httpStatus = 204 || s.httpStatus = 205 || s.httpStatus = 304 then
-      s.onCore fun s =>
-        let s := if s.httpStatus ≠ 304 then respUnset s idContentLength (ofString "Content-Length") else s
-        { bodyClear hdrIds s true with respBodyFinished := true }
-    else if s.httpStatus ≥ 400 && s.httpStatus < 600 then staticErrdoc s
-    else s
-  s.onCore writePrepareTail
-
-/-- http_response_has_error_handler() with no error handler configured: only the
-    restoration from error_handler_saved_* remains -/
-def hasErrorHandler (s : ReqSt) : ReqSt :=
-  let s := if s.errorHandlerSavedStatus > 0 then { s with method := s.errorHandlerSavedMethod } else s
+/-- http_response_has_error_handler() with no error handler configured: only the restoration
+    from error_handler_saved_status / error_handler_saved_method (`savedMethod`) remains -/
+def hasErrorHandler (savedMethod : Int) (s : ReqLive) : ReqLive :=
+  let s := if s.errorHandlerSavedStatus > 0 then { s with method := savedMethod } else s
   if !s.handlerModule then
     if s.errorHandlerSavedStatus ≠ 0 then
       let sub := s.httpStatus
@@ -602,13 +611,31 @@ def hasErrorHandler (s : ReqSt) : ReqSt :=
     else s
   else s
 
-/-- http_response_handler() for a request no module takes over asynchronously -/
-def respond (site : Site) (s : ReqSt) : ReqSt :=
-  let s := if s.handlerModule then { s with httpStatus := 500 }    -- (a stale handler would be called)
-           else responsePrepare site s
+/-- http_response_handler() between http_response_prepare() and http_response_write_prepare():
+    default status, error-handler bookkeeping -/
+def preWrite (savedMethod : Int) (s : ReqLive) : ReqLive :=
   let s := if s.httpStatus = 0 then { s with httpStatus := 200 } else s
-  let s := if s.httpStatus < 400 && s.errorHandlerSavedStatus = 0 then s else hasErrorHandler s
-  writePrepare s
+  if s.httpStatus < 400 && s.errorHandlerSavedStatus = 0 then s else hasErrorHandler savedMethod s
+
+/-- http_response_handler() on the core fields, for a request no module takes over
+    asynchronously; `savedMethod` = r->error_handler_saved_method -/
+def respondC (site : Site) (savedMethod : Int) (s : ReqCore) : ReqCore :=
+  let a := if s.handlerModule then s.onLive fun l => { l with httpStatus := 500 }   -- (a stale handler would run)
+           else responsePrepare site s
+  let p := preWrite savedMethod a.toReqLive
+  let b : ReqCore := { a with toReqLive := writePrepare p }
+  -- http_response_errdoc_init(): buffer_reset(&r->physical.path)
+  if errdocApplies p then { b with physPath := none } else b
+
+/-- http_response_handler(): `respondC` plus the allocation state of physical.path -/
+def respond (site : Site) (s : ReqSt) : ReqSt :=
+  let a := if s.handlerModule then s.toReqCore else responsePrepare site s.toReqCore
+  let c := respondC site s.errorHandlerSavedMethod s.toReqCore
+  let allocated := s.physPathPtr || a.physPath.isSome
+  let reset := a.physPath.isSome && c.physPath.isNone          -- buffer_reset() in the error document path
+  { toReqCore := c,
+    toReqStale := { s.toReqStale with physPathPtr := if reset then allocated && !s.physPathBig else allocated,
+                                      physPathBig := if reset then false else s.physPathBig } }
 
 /-! ### what the client sees -/
 
@@ -620,11 +647,11 @@ structure Out where
   keepAlive : Bool
 deriving Repr, DecidableEq
 
-def headerLines (s : ReqCore) : List (Bytes × Bytes) :=
+def headerLines (s : ReqLive) : List (Bytes × Bytes) :=
   (s.respHeaders.filter fun e => !e.2.1.isEmpty && !e.2.2.isEmpty).map fun e => (e.2.1, e.2.2)
 
-/-- h1_send_headers(): keep-alive decision, Connection header, serialisation -/
-def h1SendHeaders (requestCount : Nat) (s : ReqCore) : ReqCore :=
+/-- h1_send_headers(): keep-alive decision, Connection header -/
+def h1SendHeaders (requestCount : Nat) (s : ReqLive) : ReqLive :=
   let s :=
     if requestCount > s.conf.maxKeepAliveRequests then { s with keepAlive := 0 }
     else if s.reqbodyLength ≠ 0 && s.reqbodyLength ≠ (s.reqbodyQueue.bytesIn : Int) && !s.handlerModule then
@@ -636,11 +663,11 @@ def h1SendHeaders (requestCount : Nat) (s : ReqCore) : ReqCore :=
   else if s.version = 0 then respSet s idConnection (ofString "Connection") (ofString "keep-alive")
   else s
 
-def h1Output (s : ReqCore) : Out :=
+def h1Output (s : ReqLive) : Out :=
   { status := s.httpStatus, version := if s.version = 1 then 1 else 0,
     headers := headerLines s, body := s.writeQueue.data, keepAlive := s.keepAlive > 0 }
 
-def h2Output (s : ReqCore) : Out :=
+def h2Output (s : ReqLive) : Out :=
   { status := s.httpStatus, version := 2,
     headers := (headerLines s).map fun kv => (kv.1.map toLower, kv.2),
     body := s.writeQueue.data, keepAlive := true }
@@ -667,18 +694,18 @@ def Conn.fresh (e : SrvEnv) : Conn := { r := ReqSt.init e }
 def h1Msg (site : Site) (e : SrvEnv) (c : Conn) (head : Bytes) : Conn × Option Out :=
   if !c.isOpen then (c, none) else
   let count := c.requestCount + 1                       -- connection_handle_request_start_state()
-  let r0 := { c.r with loopsPerRequest := 0 }
+  let r0 := c.r.onLive fun l => { l with loopsPerRequest := 0 }
   -- h1_recv_headers(): the limit checks come before request_reset_ex()
-  let parsed : IntoRes :=
+  let parsed : IntoRes ReqSt :=
     match recvHead r0.conf.maxRequestFieldSize head with
-    | .tooLarge => .done { r0 with httpStatus := 431, keepAlive := 0 }
+    | .tooLarge => .done (r0.onLive fun l => { l with httpStatus := 431, keepAlive := 0 })
     | .head _ _ => parseIntoH1 (if count > 1 then requestResetEx r0 else r0) head
     | .incomplete => .incomplete
     | .blank _ => .blank
   match parsed with
   | .done r1 =>
-    let r2 := (respond site r1).onCore (h1SendHeaders count)
-    let out := h1Output r2.toReqCore
+    let r2 := (respond site r1).onLive (h1SendHeaders count)
+    let out := h1Output r2.toReqLive
     -- connection_handle_response_end_state()
     let incomplete := r2.reqbodyLength ≠ (r2.reqbodyQueue.bytesIn : Int)
     let ka := r2.keepAlive > 0 && !incomplete
@@ -711,7 +738,7 @@ def h2Stream (site : Site) (e : SrvEnv) (h2r : ReqSt) (swin : Nat) (pooled : Req
   match parseIntoH2 r0 fs endStream with
   | .done r1 =>
     let r2 := respond site r1
-    (requestRelease hdrIds e r2, some (h2Output r2.toReqCore))
+    (requestRelease hdrIds e r2, some (h2Output r2.toReqLive))
   | _ => (requestRelease hdrIds e r0, none)
 
 /-- the request pool as a stack of released objects (request_pool_push / request_pool_pop);
